@@ -1,45 +1,8 @@
 #!/usr/bin/env python3
-"""benign.py [ids...] - apply each property-preserving change (benign/<id>/patch.diff) to /repo, run the
-survey and undo it: no property's check may raise an alarm.  Results in benign/<id>/result.json."""
-import json, os, subprocess, sys, time
-
-VERIF = os.path.dirname(os.path.dirname(os.path.abspath(__file__)))
-REPO = os.environ.get("VERIF_REPO", "/repo")
-DIR = os.path.join(VERIF, "benign")
-
-
-def sh(cmd, **kw):
-    return subprocess.run(cmd, shell=True, stdout=subprocess.PIPE, stderr=subprocess.STDOUT, text=True, **kw)
-
-
-def main():
-    ids = sys.argv[1:] or sorted(os.listdir(DIR))
-    if sh("git -C %s status --porcelain" % REPO).stdout.strip():
-        print("/repo is not clean")
-        sys.exit(2)
-    for mid in ids:
-        patch = os.path.join(DIR, mid, "patch.diff")
-        if not os.path.exists(patch):
-            continue
-        r = sh("git -C %s apply %s" % (REPO, patch))
-        if r.returncode != 0:
-            print(mid, "patch does not apply:", r.stdout[-300:])
-            continue
-        t0 = time.time()
-        try:
-            out = sh("python3 %s/bin/check.py --survey --tier quick" % VERIF, cwd=VERIF, timeout=2400).stdout
-        finally:
-            sh("git -C %s checkout -- ." % REPO)
-        res = {}
-        for line in out.splitlines():
-            if line.startswith("SURVEY "):
-                res = json.loads(line[7:])
-        res["wall_s"] = round(time.time() - t0)
-        res["false_alarm"] = bool(res.get("violated")) or bool(res.get("errors"))
-        json.dump(res, open(os.path.join(DIR, mid, "result.json"), "w"), indent=1)
-        print(mid, "FALSE-ALARM" if res["false_alarm"] else "quiet", "violated:", sorted(res.get("violated", {})),
-              "nonconf:", res.get("nonconf"), "errors:", [e[:200] for e in res.get("errors", [])], flush=True)
-
-
-if __name__ == "__main__":
-    main()
+"""benign.py [-j N] [ids...] - judge each property-preserving change (benign/<id>/patch.diff) in a scratch worktree:
+no property's check may raise an alarm.  Results in benign/<id>/result.json.  (mutants.py --dir benign)"""
+import os, sys
+sys.argv = [sys.argv[0], "--dir", "benign"] + sys.argv[1:]
+sys.path.insert(0, os.path.dirname(os.path.abspath(__file__)))
+import mutants
+mutants.main()
